@@ -505,13 +505,14 @@ def EInfo.isMandatory (e : EInfo) : Bool :=
   !(e.folded == .foldedOptional) && !e.optional && !e.recursive
 
 /-- `make_non_folded_edge_info` (`ResolveInfo`: the scope starts at the edge; `NeighborInfo`: the
-scope of the current hint object is inherited — *without* the edge's own `optional` flag). -/
+scope of the current hint object is inherited, or opened by the edge's own `optional` flag — before
+the repair of finding F-C04-1 the `NeighborInfo` version forgot the edge's flag). -/
 def VInfo.nonFoldedEdge (i : VInfo) (e : IREdge) : EInfo :=
   { eid := e.eid, name := e.name, params := e.params, optional := e.optional,
     recursive := e.recursive.isSome, folded := .none,
     destination :=
       { vid := e.toVid, startVid := i.startVid, frontier := i.frontier,
-        withinOptional := if i.isResolveInfo then e.optional else i.withinOptional,
+        withinOptional := if i.isResolveInfo then e.optional else i.withinOptional || e.optional,
         locallyNonBinding := locallyNonBindingEdge e, isResolveInfo := false } }
 
 /-- `make_folded_edge_info`. -/
